@@ -240,6 +240,12 @@ def _recursive_attribute_name(attribute: ast.Attribute) -> str:
     return f"{attribute.value.id}.{attribute.attr}"
 
 
+def _is_attribute_chain(attribute: ast.Attribute) -> bool:
+    while isinstance(attribute, ast.Attribute):
+        attribute = attribute.value
+    return isinstance(attribute, ast.Name)
+
+
 def _get_unused_imports(ast_tree: ast.Module) -> Collection[str]:
     """Get names that are imported in ast tree but never used.
 
@@ -291,10 +297,33 @@ def _get_unused_imports_split(
     Returns:
         Tuple: completely_unused_imports, partially_unused_imports
     """
+    # An import in a class body defines a class attribute (A.os), and an import in a try block
+    # with handlers may be there for the exception it raises: neither is judged by name uses.
+    kept = set()
+    for parent in core.walk(ast_tree, ast.ClassDef):
+        kept.update(core.filter_nodes(parent.body, (ast.Import, ast.ImportFrom)))
+    for parent in core.walk(ast_tree, ast.Try):
+        if parent.handlers:
+            for child in parent.body:
+                kept.update(core.walk(child, (ast.Import, ast.ImportFrom)))
+
+    # `import a.b as c` also makes b an attribute of a
+    dotted_names = {
+        _recursive_attribute_name(node)
+        for node in core.walk(ast_tree, ast.Attribute)
+        if _is_attribute_chain(node)
+    }
+
     import_unused_aliases = collections.defaultdict(set)
     for node in core.walk(ast_tree, (ast.Import, ast.ImportFrom)):
+        if node in kept:
+            continue
         for alias in node.names:
             used_name = alias.name if alias.asname is None else alias.asname
+            if isinstance(node, ast.Import) and any(
+                name == alias.name or name.startswith(alias.name + ".") for name in dotted_names
+            ) and "." in alias.name:
+                continue
             if used_name in unused_imports:
                 import_unused_aliases[node].add(alias)
 
